@@ -195,6 +195,19 @@ class Renamer(object):
         kf = {a: list(sh["attr_features"].get(a, [])) + ["init:" + kinit[a]] for a in known_attrs}
         cf = {a: list(cur["attr_features"].get(a, [])) + ["init:" + cinit[a]] for a in cur_attrs}
         mp = pair(missing, unknown, kf, cf, lone_threshold=0.2, threshold=0.4, margin=0.08)
+        # an attribute initialised with an object of a class of the package is that object, not another spelling of a number / flag / lock:
+        # it pairs only with a known attribute initialised by the same constructor
+        pkg_classes = set(c.name for t in self.trees.values() for c in ast.walk(t) if isinstance(c, ast.ClassDef))
+
+        def ctor_name(dump):
+            # ast.dump of the initialiser: Call(func=Name(id='K', ...
+            import re as _re
+            m_ = _re.match(r"Call\(func=Name\(id='([A-Za-z_0-9]+)'", dump or "")
+            return m_.group(1) if m_ else None
+        for u in list(mp):
+            cu, ck = ctor_name(cinit.get(u)), ctor_name(kinit.get(mp[u]))
+            if cu in pkg_classes and cu != ck:
+                del mp[u]
         for old, new in sorted(mp.items()):
             self._rename_attr_everywhere(old, new)
             self.log.append(("attribute", "%s.%s" % (modname, cls.name), old, new))
